@@ -43,6 +43,20 @@ def run(ctx):
         trees += [X.random_tree(rng, 3, leaves) for _ in range(300 if ctx.quick else 6000)]
         trees += [X.random_tree(rng, 3, rleaves) for _ in range(100 if ctx.quick else 2000)]
         trees += [X.random_logical(rng, 2, leaves) for _ in range(100 if ctx.quick else 2000)]
+        # literal arithmetic around division: (n1 - n2)/n3, n1/(n2 - n3), negative IntLiteral nodes, literal powers
+        lit = []
+        for n1 in range(0, 10):
+            for n2 in range(0, 10):
+                for n3 in (2, 3, 4):
+                    lit.append({'k': 'quot', 'c': [{'k': 'sum', 'c': [X.N(n1), {'k': 'neg', 'c': [X.N(n2)]}]}, X.N(n3)]})
+                    if n2 != n3:
+                        lit.append({'k': 'quot', 'c': [X.N(n1), {'k': 'sum', 'c': [X.N(n2), {'k': 'neg', 'c': [X.N(n3)]}]}]})
+        for v in (-9, -7, -5, -3, -1, 7):
+            for d in (-3, -2, 2, 3, 4):
+                lit.append({'k': 'quot', 'c': [{'k': 'rawint', 'v': v}, {'k': 'rawint', 'v': d}]})
+                lit.append({'k': 'sum', 'c': [X.V('a'), {'k': 'prod', 'c': [X.V('b'), {'k': 'quot', 'c': [{'k': 'rawint', 'v': v}, {'k': 'rawint', 'v': d}]}]}]})
+        rng.shuffle(lit)
+        trees += lit[:150 if ctx.quick else len(lit)]
         fsets = flag_sets(ctx.quick)
         work = []
         for t in trees:
